@@ -1,5 +1,6 @@
 import CollectionsC.Proofs.HashTableIter
 import CollectionsC.Proofs.HashSet
+import CollectionsC.Proofs.HashSetIter
 /-! # C07 (hash part) — the hash-table / hash-set iterator
 
 A fresh iterator yields every entry exactly once (in the bucket-walk order, which the property leaves
@@ -113,15 +114,20 @@ theorem set_iterator_program (c : HCfg) (s : HashSet) (m : Mem) (bs : List Bool)
   HashSet.iter_program c s m bs h hl
 
 /-- `traversal_complete` (the name used across containers): a fresh iterator and `n ≥ size` calls of
-`next` yield a list whose key/value pairs are exactly the map (in walk order, hence a permutation of
-any other presentation of the map), with pairwise distinct keys, then END — at every fill level,
-under every hash function -/
-theorem traversal_complete (c : HCfg) (t : HashTable) (m : Mem) (n : Nat) (sp : Map) (h : t.Inv c)
-    (hl : t.size + 2 ≤ liveOf m t.triple) (hn : t.size ≤ n) (hs : t.abs.Perm sp) :
-    ((HashTable.drive c (List.replicate n false) t (t.iterInit m).1 m).1.map HashTable.pair).Perm sp ∧
-    (HashTable.drive c (List.replicate n false) t (t.iterInit m).1 m).1.length = t.size := by
-  obtain ⟨f1, _, f3, _⟩ := fresh_iterator_yields_all c t m n h hl hn
-  exact ⟨by rw [f1]; exact hs, f3⟩
+`next` yield a list whose key/value pairs are exactly the map (hence a permutation of every other
+presentation of it), every key once, then END — at every fill level, under every hash function -/
+theorem traversal_complete (c : HCfg) (t : HashTable) (m : Mem) (n : Nat) (h : t.Inv c)
+    (hl : t.size + 2 ≤ liveOf m t.triple) (hn : t.size ≤ n) :
+    ((HashTable.drive c (List.replicate n false) t (t.iterInit m).1 m).1.map HashTable.pair) = t.abs ∧
+    ((HashTable.drive c (List.replicate n false) t (t.iterInit m).1 m).1.map (·.key)).Nodup ∧
+    (HashTable.drive c (List.replicate n false) t (t.iterInit m).1 m).1.length = t.size ∧
+    (∀ k v, Map.lookup t.abs k = some v ↔
+      (k, v) ∈ (HashTable.drive c (List.replicate n false) t (t.iterInit m).1 m).1.map HashTable.pair) := by
+  obtain ⟨f1, f2, f3, _⟩ := fresh_iterator_yields_all c t m n h hl hn
+  refine ⟨f1, f2, f3, fun k v => ?_⟩
+  rw [f1]
+  have wf : Map.WF t.abs := by unfold Map.WF; rw [HashTable.abs_eq, HashTable.keys_map_pair]; exact h.2.2.2.2.1
+  exact Map.lookup_eq_some_iff t.abs wf k v
 
 /-- `program_refines`: any program with at most one removal per yield simulates the ideal cursor
 `(done, todo)` over the walk: yields = prefix of `todo`, content = original minus the removed -/
@@ -133,6 +139,21 @@ theorem program_refines (c : HCfg) (bs : List Bool) (t : HashTable) (it : HIter)
     HashTable.ItInv (HashTable.drive c bs t it m).2.1 (HashTable.drive c bs t it m).2.2.1 (todo.drop bs.length) := by
   obtain ⟨d1, d2, d3, d4, _⟩ := HashTable.drive_spec c bs t it m todo h hit hnd hl
   exact ⟨d1, d2, d3, d4⟩
+
+/-- **arbitrary iterator programs on the hash set** (`cc_hashset_iter_next` / `iter_remove` in any
+order, repeated and premature removals included): statuses and yielded elements are those of the ideal
+set cursor, the set finally holds the cursor's set; invariant, no fault, balanced ledger of the set's
+own triple, END exactly when nothing is pending -/
+theorem set_any_program_refines (c : HCfg) (prog : List HashTable.IterOp) (s : HashSet) (m : Mem) (h : s.Inv c)
+    (hl : s.size + 3 ≤ liveOf m s.triple) :
+    (HashSet.iterRun c prog s (s.iterInit m).1 m).1 = ((HashSet.SCursor.mk s.abs none).run s.abs prog).1 ∧
+    (HashSet.iterRun c prog s (s.iterInit m).1 m).2.1.abs = ((HashSet.SCursor.mk s.abs none).run s.abs prog).2.2 ∧
+    (HashSet.iterRun c prog s (s.iterInit m).1 m).2.1.Inv c ∧
+    (HashSet.iterRun c prog s (s.iterInit m).1 m).2.2.2.fault = m.fault ∧
+    liveOf (HashSet.iterRun c prog s (s.iterInit m).1 m).2.2.2 s.triple + s.size =
+      liveOf m s.triple + (HashSet.iterRun c prog s (s.iterInit m).1 m).2.1.size := by
+  obtain ⟨b1, b2, b3, b5, b6, _⟩ := HashSet.iterRun_refines c prog s m h hl
+  exact ⟨b1, b2, b3, b5, b6⟩
 
 /-- non-vacuity: a constant-hash table, remove the 1st and 3rd yielded entries -/
 def exTable : HashTable :=
